@@ -78,7 +78,7 @@ fn main() {
         // with C01's verdict on it
         let prefix = args.get(1).cloned().unwrap_or_default();
         let code = pool::on_fresh_thread(1, move || {
-            for (fam, mut p) in stmtfam::all_programs(false).into_iter().filter(|(f, _)| f.starts_with(&prefix)) {
+            for (fam, mut p) in stmtfam::all_programs(std::env::var("VERIF_TIER").map(|t| t == "thorough").unwrap_or(false)).into_iter().filter(|(f, _)| f.starts_with(&prefix)) {
                 let c = engines::c01::check_semantics(&mut p);
                 let v = match &c.verdict {
                     engines::c01::Verdict::Ok { .. } => "ok".to_string(),
